@@ -34,6 +34,7 @@ type World struct {
 	typeTags  map[string]int
 	externals map[string]bool
 	trusted   map[string]string
+	lemmaUses map[string]bool
 }
 
 func (w *World) typeTag(name string) int {
@@ -50,6 +51,15 @@ func (w *World) typeTag(name string) int {
 func (w *World) noteExternal(name string) {
 	w.mu.Lock()
 	w.externals[name] = true
+	w.mu.Unlock()
+}
+
+func (w *World) noteLemmaUse(name string) {
+	w.mu.Lock()
+	if w.lemmaUses == nil {
+		w.lemmaUses = map[string]bool{}
+	}
+	w.lemmaUses[name] = true
 	w.mu.Unlock()
 }
 
